@@ -639,6 +639,12 @@ func (g *Graph) OnlyViaFact(target Point, match func(Fact) bool) (bool, []string
 // reaching it: lock/unlock classify a cfg node (deferred unlocks are ignored,
 // they run at exit).
 func (g *Graph) Held(lock, unlock func(ast.Node) bool) map[ast.Node]bool {
+	return g.HeldFrom(false, lock, unlock)
+}
+
+// HeldFrom is Held with a given lock state at function entry (true for a
+// helper that is only ever called with the lock held).
+func (g *Graph) HeldFrom(entry bool, lock, unlock func(ast.Node) bool) map[ast.Node]bool {
 	in := map[*cfg.Block]bool{}
 	out := map[*cfg.Block]bool{}
 	for _, b := range g.CFG.Blocks {
@@ -674,7 +680,7 @@ func (g *Graph) Held(lock, unlock func(ast.Node) bool) map[ast.Node]bool {
 			}
 			v := true
 			if i == 0 {
-				v = false
+				v = entry
 			}
 			for _, p := range preds[b] {
 				if p.Live && !out[p] {
